@@ -4,7 +4,7 @@
 From Coq Require Import ZArith List Bool.
 From MT Require Import DagFile.FlattenModel DagFile.PruneModel DagFile.CodecModel DagFile.ChronoModel
   DagFile.DagSpec DagFile.CodecProofs DagFile.FlattenProofs DagFile.TotalsProofs DagFile.ChronoProofs
-  DagFile.StackProofs DagFile.Examples.
+  DagFile.StackProofs DagFile.BridgeRecord DagFile.Examples.
 Import ListNotations.
 Local Open Scope Z_scope.
 
@@ -89,3 +89,45 @@ Print Assumptions C19_enum_order.
 Example C19_enum_order_example : map (fun e => (fst (fst e), snd (fst e))) (entries ex_tree) =
   [(0, 1); (1, 3); (2, 7); (3, 5); (4, 7); (5, 6); (6, 7)]%nat.
 Proof. reflexivity. Qed.
+
+(** ** For every recorded execution as in C18 - the two hypotheses discharged
+
+    [TM] = Dag/DagTreeModel.v, [RM] = Dag/DagRecordModel.v, [RP] = Dag/DagProofs.v (the C18 development):
+    [t] any well-nested execution tree (task ::= (section|other)* end, section ::= (section|create task|other)* wait)
+    with arbitrary clock readings and workers on its intervals; [RM.record oc summ [] t] the in-memory dag the
+    recorder builds, accumulating every closed section/task (dr_accumulate_stats) and handing it to ANY contracting
+    summariser [summ] (every contraction policy, C18_policies_contract); [bridge aux nm aw] translates it into the
+    input of the flattening, with in_edge_kind by the recorder's rule ([aw]: arbitrary choice between wait_cont and
+    end after a section), arbitrary remaining info words [aux] and arbitrary file names [nm]
+    (DagFile/BridgeRecord.v). *)
+Theorem C19_wf_recorded : forall aux nm aw oc summ, RP.contracting summ -> forall t, TM.well_nested t ->
+  forall hdr ptr sc nw,
+  exists G, make_pi_dag hdr ptr sc nw (bridge aux nm aw (RM.record oc summ [] t)) = Ok G /\
+            dag_wf G /\ gsc G = sc /\ gnw G = nw.
+Proof. exact wf_recorded. Qed.
+Print Assumptions C19_wf_recorded.
+
+(** ... under any contraction at record time ([summ]) and any at conversion time ([cc]): the dumped and the
+    shrunk dag are well formed (hence replayable, C19_replay), the root keeps its info, and the leaves of both
+    add up to the work of the execution (sum of all interval lengths, C18_work). *)
+Theorem C19_shrink_totals_recorded : forall aux nm aw oc summ, RP.contracting summ -> forall t, TM.well_nested t ->
+  forall cc hdr ptr sc nw,
+  exists G G' x0 y0,
+    make_pi_dag hdr ptr sc nw (bridge aux nm aw (RM.record oc summ [] t)) = Ok G /\
+    copy_pi_dag cc hdr ptr G = Ok G' /\ dag_wf G /\ dag_wf G' /\ gsc G' = sc /\ gnw G' = nw /\
+    nth_error (gT G) 0 = Some x0 /\ nth_error (gT G') 0 = Some y0 /\ info_eq y0 x0 /\
+    getf F_t1 x0 = TM.work t /\ getf F_t1 y0 = TM.work t /\
+    leaf_t1_sum (gT G) = TM.work t /\ leaf_t1_sum (gT G') = TM.work t.
+Proof. exact shrink_totals_recorded. Qed.
+Print Assumptions C19_shrink_totals_recorded.
+
+Definition ex_exec : TM.tree :=
+  TM.Task [TM.Other (TM.mkLeaf 1 2 0);
+           TM.Sect [TM.Create (TM.mkLeaf 2 4 0) (TM.Task [TM.Sect [] (TM.mkLeaf 4 4 1)] (TM.mkLeaf 4 9 1));
+                    TM.Other (TM.mkLeaf 4 5 0)] (TM.mkLeaf 8 10 2)]
+          (TM.mkLeaf 10 11 0).
+Example C19_recorded_example :
+  TM.well_nested ex_exec /\ TM.work ex_exec = 12 /\
+  wf_root (bridge (fun _ => []) (fun _ => ([97], [98])) (fun _ => true)
+             (RM.record false (RM.summ_setting (RM.mkSetting 0 3 0 100000 0)) [] ex_exec)) = true.
+Proof. vm_compute. auto. Qed.
